@@ -134,7 +134,9 @@ def _graph_sum(run, batch):
             # History dimension: the same edge objects served another Graph over OTHER Vertex objects with the same ids (all at the identity)
             Graph(edges, [Vertex(v.id, type(v.pose).identity()) for v in verts]).calc_chi2()
         g = Graph(edges, verts)
-        got = g.calc_chi2()
+        from ..core import library_debug_logging
+        with library_debug_logging(len(batch) % 2 == 1 or batch[0][0]['k'] in ('SE3', 'R3')):       # (every other sum with the library's loggers at DEBUG)
+            got = g.calc_chi2()
     except Exception as ex:  # noqa
         run.violation(dict(check='graph-chi2'), 'exception %r building/evaluating a graph of valid edges' % (ex,), dict(cases=[b[0] for b in batch]))
         return
